@@ -83,6 +83,26 @@ def show(rec):
         [RV[x] for x in rec['rng']] or '-')
 
 
+def _stale(c):
+    """the correlation answers from the data it holds: every table entry at its temperature, the reference
+    values at the reference temperature (None = consistent)"""
+    r = c.get_range()
+    for t, v in (c.ND_Cp_data or {}).items():
+        if r is not None and not (r[0] <= t <= r[1]):
+            continue
+        k, got, _ = call(c.get_CpoR, t)
+        if k == 'error' or abs(float(got) - float(v)) > 1e-9 * max(1.0, abs(float(v))):
+            return 'get_CpoR(%g) gives %r, the table says %r' % (t, got, v)
+    if r is None or r[0] <= c.T_ref <= r[1]:
+        for name, getter, ref in (('H', 'get_HoRT', c.ND_H_ref), ('S', 'get_SoR', c.ND_S_ref)):
+            if ref is None:
+                continue
+            k, got, _ = call(getattr(c, getter), c.T_ref)
+            if k == 'error' or abs(float(got) - float(ref)) > 1e-9 * max(1.0, abs(float(ref))):
+                return '%s(T_ref) gives %r, the reference value is %r' % (getter, got, ref)
+    return None
+
+
 def _replay_transitions(ctx, recs, trans, stride):
     n = 0
     for (i, j, ow, ok, k) in trans:
@@ -101,6 +121,13 @@ def _replay_transitions(ctx, recs, trans, stride):
             after = {'drift': str(e)}
         want_err = 'ok' if ok else 'ReadOnlyDataError'
         want = recs[k - 1]
+        stale = _stale(acc) if (err == want_err and after == want) else None
+        if stale:
+            ctx.violation('stale:%s|%s|%s' % (show(a), show(b), ow),
+                          'update(acc: %s ; src: %s ; overwrite=%s) stores %s but %s'
+                          % (show(a), show(b), ow, show(after), stale),
+                          {'kind': 'trans', 'a': a, 'b': b, 'ow': ow, 'ok': ok, 'want': want})
+            continue
         if err != want_err or after != want or project(src) != before:
             zero = (b['h'] == [0] and not a['h']) or (b['s'] == [0] and not a['s'])
             key = 'update:%s|%s|%s' % (show(a), show(b), ow)
